@@ -230,6 +230,14 @@ ypr_text(struct lys_ypr_ctx *pctx, const char *name, const char *text, enum lys_
             ypr_text_squote_line(pctx, t, nl - t);
         } else {
             ypr_encode(pctx->out, t, nl - t);
+
+            if (((nl != t) && (nl[-1] == ' ')) || ((flags & LYS_YPR_TEXT_SINGLELINE) && (nl[1] == ' '))) {
+                /* spaces before a line break and, after the statement name, spaces indenting the next line
+                 * would be stripped when parsed back, print the newline escaped */
+                ly_print_(pctx->out, "\\n");
+                t = nl + 1;
+                continue;
+            }
         }
         ly_print_(pctx->out, "\n");
 
